@@ -211,6 +211,7 @@ def run(idx: ProgramIndex, rep: Report, tier: str):
         "C03-7": "memo primitives: the three key builders agree, args/kwargs enter the key, clear_cache_hook rebinds to an empty dict",
         "C03-12": "a value planted into an object's memo (add_to_cache) is stored under the key its reader uses: as many key arguments as the @cached reader takes",
         "C03-11": "evaluation-mode caches read by the prediction path do not keep an autograd graph under the default settings.detach_test_caches(True) (or clear themselves when back-propagated through): a backward pass through one prediction leaves the next one differentiable",
+        "C03-13": "no object stores the value of a gpytorch setting in its constructor: settings are read at the call they govern (a value frozen at construction ignores every later with-block, and keeps the value of a block that has ended)",
         "C03-10": "a value-changing setting read while the model's own modules (kernels, means, likelihoods) are evaluated reaches every prediction cache: the strategy keys or re-validates its caches by it",
     }
     for k, v in rules.items():
@@ -228,6 +229,7 @@ def run(idx: ProgramIndex, rep: Report, tier: str):
     state_not_overwritten(idx, rep)
     module_settings_reach_caches(idx, rep)
     caches_survive_backward(idx, rep)
+    settings_read_at_call_time(idx, rep)
     memo_keys_agree(idx, rep)
     rep.assume("regulariser/precision settings (variational_cholesky_jitter, cholesky_jitter, _linalg_dtype_cholesky) are not changed between two evaluation-mode calls on the same model: gpytorch caches Cholesky factors computed with them by design")
     rep.assume("settings read only inside linear_operator (CG vs Cholesky, Lanczos rank) select between algorithms for the same quantity (the 'iterative paths at tight tolerance' caveat of C01)")
@@ -1701,3 +1703,40 @@ def memo_keys_agree(idx: ProgramIndex, rep: Report):
                     "stored under the key of its reader (%s)" % who if ok else
                     "the entry '%s' is stored with %d key argument(s) but the reader of an object this can be takes another number (%s): the planted value is never read and the reader recomputes it from its own ingredients" % (nm, nargs, who), {})
     rep.floor("C03-12", "add_to_cache sites with a reader in the package", n, 4)
+
+
+# ---- C03-13 --------------------------------------------------------------------------------------------------------
+def settings_read_at_call_time(idx: ProgramIndex, rep: Report):
+    """'...depends only on its current parameters, training data and the settings active at the call': a module that copies the value of a
+    setting into an attribute when it is constructed uses that copy for its whole life - a later `with settings.x(v):` around a call has no
+    effect on it, and a module built inside a block keeps the block's value after the block has ended."""
+    n = 0
+    ctl_hit = False
+    ctl = idx.load_source("gpytorch._verif_control_c03", "from .module import Module\nfrom . import settings\nclass ControlFrozenSetting(Module):\n    def __init__(self):\n        super().__init__()\n        self.frozen = settings.variational_cholesky_jitter.value(None)\n")
+    classes = sorted(set(idx.package_classes()) | set(ctl.classes.values()), key=lambda c: (c.module.name, c.qualname))
+    for k in [k for k in idx.classes if k[0] == "gpytorch._verif_control_c03"]:
+        ci = idx.classes.pop(k)
+        idx.by_name[ci.name].remove(ci)
+    del idx.modules["gpytorch._verif_control_c03"]
+    for cls in classes:
+        init = cls.methods.get("__init__")
+        if init is None:
+            continue
+        n += 1
+        for a in ast.walk(init.node):
+            if not (isinstance(a, ast.Assign) and any(isinstance(t, ast.Attribute) and chain(t.value) == init.params[0] for t in a.targets)):
+                continue
+            reads = [c for c in calls_in(a.value) if setting_name(idx, init, c)]
+            if not reads:
+                continue
+            attr = [t.attr for t in a.targets if isinstance(t, ast.Attribute)][0]
+            if cls.module.name.endswith("_verif_control_c03"):
+                ctl_hit = True
+                continue
+            sname = setting_name(idx, init, reads[0])
+            rep.add("C03-13", "%s:%s.__init__[self.%s <- settings.%s]" % (cls.module.name, cls.qualname, attr, sname), "%s:%d" % (init.module.relpath, a.lineno), False,
+                    "the constructor stores the value of settings.%s in self.%s; every sibling reads the setting at call time: a model built inside `with settings.%s(v):` keeps v after the block has ended, and a block around a later call is ignored by this module while the other modules in the same call obey it" % (sname, attr, sname), {})
+    if not ctl_hit:
+        raise AnalysisError("C03-13: positive control not matched (a constructor that stores a setting value)")
+    rep.add("C03-13", "gpytorch:<constructors that store a setting value>", "gpytorch/", True, "%d constructors inspected" % n, {"constructors": n}, trivial=True)
+    rep.floor("C03-13", "constructors inspected", n, 100)
